@@ -9,6 +9,7 @@ CONSTANTS Capacity, FixAbsent, FixEqWrite, FixTopLevel, SharedKeys,
           Vals,          \* values a keyed source / the singleton may hold
           MaxOps,        \* depth bound on histories
           MaxRetain,     \* bound on simultaneous retains per node
+          Shadow,        \* TRUE: also run the pinned design BO as shadow state (see below)
           Emit           \* "all": one REPLAY per generated transition; "final": only complete histories; "none"
 
 KeyOrderAB == <<"A", "B">>      \* cfg: KeyOrder <- KeyOrderAB
@@ -23,25 +24,48 @@ NoPred == [evs |-> <<>>, res |-> [t |-> "val", v |-> 0]]
 A == INSTANCE PicoA
 B == INSTANCE PicoB WITH KeyOf <- KeyOfNode
 
+\* The pinned (unrepaired) design, run as a SHADOW next to B when Shadow = TRUE.  Its state is part of
+\* the view, so two histories are merged only if they also leave the pinned design in the same state:
+\* every history that the repaired and the pinned implementation distinguish gets its own replay,
+\* which makes a regression of any of the repaired defects show up in the exhaustive part of the check.
+KeyOfShared(n) == IF n \in {"twin:a", "twin:b"} THEN "twin" ELSE n
+BO == INSTANCE PicoB WITH KeyOf <- KeyOfShared, FixAbsent <- FALSE, FixEqWrite <- FALSE, FixTopLevel <- FALSE
+
 VARIABLES db,     \* layer B state
+          dbo,    \* shadow: state of the pinned design (constant when Shadow = FALSE)
           mon,    \* layer A monitor state
           bad,    \* property ids violated by the last step
           dead,   \* the last operation panicked: the process is gone, no further operations
           hist,   \* history of operations (hidden from the fingerprint by the VIEW)
           pred    \* what layer B predicts the last operation does: [evs, res] (hidden too)
 
-vars == <<db, mon, bad, dead, hist, pred>>
-View == <<db, mon, bad, dead, Len(hist)>>      \* the depth bound depends on Len(hist): keep it in the view
+vars == <<db, dbo, mon, bad, dead, hist, pred>>
+View == <<db, dbo, mon, bad, dead, Len(hist)>>      \* the depth bound depends on Len(hist): keep it in the view
 
 Init == /\ db = B!InitDb
+        /\ dbo = BO!InitDb
         /\ mon = A!InitMon
         /\ bad = {}
         /\ dead = FALSE
         /\ hist = <<>>
         /\ pred = NoPred
 
+ShadowStep(op) ==
+  IF ~Shadow THEN dbo
+  ELSE BO!Normalize(
+    CASE op.op = "set"     -> BO!SetB(dbo, op.k, mon.src[op.k] # op.v)
+      [] op.op = "remove"  -> BO!RemoveB(dbo, op.k)
+      [] op.op \in {"minsert", "mremove"} -> BO!TouchB(dbo)
+      [] op.op = "call"    -> BO!CallB(dbo, mon.src, mon.mp, op.n).db
+      [] op.op = "retain"  -> LET r == BO!CallB(dbo, mon.src, mon.mp, op.n)
+                              IN IF r.res.t = "panic" THEN r.db ELSE BO!RetainB(r.db, op.n)
+      [] op.op = "clear"   -> BO!ClearB(dbo, op.n)
+      [] op.op = "gc"      -> BO!GcB(dbo).db
+      [] OTHER             -> dbo)
+
 Step(op, p, db1, mon1, bad1, dead1) ==
   /\ db' = B!Normalize(db1)
+  /\ dbo' = ShadowStep(op)
   /\ mon' = mon1
   /\ bad' = bad1
   /\ dead' = dead1
